@@ -31,7 +31,7 @@ def configs(ctx):
     quick = ctx.quick
     work = []
     tmpl = dict(U.templates("thorough"))
-    tags = ["P1", "P1ij", "P2", "P8b"] + ([] if quick else ["P8"])
+    tags = ["P1", "P1ij", "P2", "P8b", "EW2", "EW3"] + ([] if quick else ["P8"])
     for tag in tags:
         expr = tmpl[tag]
         decl = U.decl_for([expr])
@@ -52,8 +52,8 @@ def configs(ctx):
 
         def add(part, chains, need, label, sizes=None):
             los = monotone_orders(chains)
-            if tag in ("P8", "P8b") and len(los) > (4 if quick else 12):
-                cap_ = 4 if quick else 12
+            if tag in ("P8", "P8b", "EW3") and len(los) > (4 if quick else 12):
+                cap_ = (2 if tag == "EW3" else 4) if quick else 12
                 los = los[::-(-len(los) // cap_)]
             exts = exts_for(need, max_cells)
             # P8b: both storage orders of the tensor that is looked up with two coordinates
@@ -72,7 +72,7 @@ def configs(ctx):
                     work.append(cfg)
 
         # (a) occupancy partitioning of one rank, every leader holding it
-        for r in (ranks if not (quick and tag == "P8b") else []):
+        for r in (ranks if not (quick and tag in ("P8b", "EW3")) else []):
             others = [[x] for x in ranks if x != r]
             for L in holders(decl, expr, r):
                 stacks = [[occ(L, 1)], [occ(L, 2)], [occ(L, 2), occ(L, 1)], ["uniform_shape(2)", occ(L, 1)]]
@@ -87,7 +87,7 @@ def configs(ctx):
                     add({r: [occ(L, 2), occ(L2, 1)]}, [levels(r, 2)] + others, [r], "occ2:%s@%s,%s" % (r, L, L2))
         # (b) occupancy partitioning of two ranks
         for r1, r2 in itertools.combinations(ranks, 2):
-            if (quick and tag != "P1") or tag == "P8b":
+            if (quick and tag != "P1") or tag in ("P8b", "EW3"):
                 continue
             for L1 in holders(decl, expr, r1)[:1 if quick else None]:
                 for L2 in holders(decl, expr, r2)[:1 if quick else None]:
